@@ -748,6 +748,7 @@ func init() {
 		Rule: "Three families. laws: three matrices with entries from {0, +-1, tiny, [-10,10], [-1e3,1e3]} (one in six made singular), a point and an angle; checked in float64 with float32-aware tolerance (2e-5 x product of magnitudes + 1e-4): Mul against the definition, associativity, Mul3, identity (exact), Apply homomorphism, LeftMultBy/RightMultBy, determinant and its multiplicativity, in-place Translate/Scale/Rotate/Skew = right multiplication by the specification matrix of the constructor, constructors against CSS Transforms section 13 matrices, Invert errors iff det == 0 and is a two-sided inverse (vs the exact inverse, tolerance scaled by conditioning) when |det| > 1e-3 norm^2. " +
 			"css: a block of generated size/position with a transform list of 1-4 functions (translate/X/Y with px and %, scale/X/Y, rotate and skew/X/Y in deg/rad/grad/turn, matrix) and a transform-origin (keywords, px, %); the single Transform call issued for the box must equal T(origin) M1..Mn T(-origin) computed from the specification matrices. " +
 			"svg: <g transform=list> (optionally a nested <g>) around a probe <rect>, list of translate/scale/rotate(a[,cx,cy])/skewX/skewY/matrix with comma or space separators; the current transformation matrix under which the rectangle is emitted must equal the left-to-right product. Singular lists are excluded (counted). " +
+			"One single-box scene in two gives the box display table / flow-root / flex / grid. " +
 			"Non-trivial: laws with a well-conditioned matrix; lists with >= 2 functions, a skew, a rotate about a point or a non-default origin.",
 		ImportantLabels: []string{"kind:laws", "kind:css", "kind:svg", "well-conditioned", "singular", "origin-set", "nested-g", "css:skewx", "css:skewy", "svg:skewX", "svg:rotate3", "unit:%", "unit:grad", "unit:turn", "unit:rad"},
 		Assumptions:     []string{"geometric tolerance: 2e-5 x (product of operand magnitudes) + 1e-4, the code computes in float32"},
